@@ -693,4 +693,3 @@ func rlReflectDriver(raw json.RawMessage) *Out {
 	out.Events = append(out.Events, map[string]any{"op": "reflect", "decl": d, "expect": c.Expect, "real": evProj})
 	return out
 }
-
